@@ -242,12 +242,15 @@ def exec_union(ctx, case):
     two_arm = case["arms"] == 2 and len(zz) > 2 and (pid == 0).sum() == 2
     if two_arm:
         ctx.count("two_arm_roots")
+    fe = extract_feature(tree) if case.get("frontend") else None  # one extractor, asked repeatedly
+    if fe is not None:
+        fe.get("volume", accuracy=1)
     for acc in case["levels"]:
         if isinstance(acc, int) and acc >= 5 and two_arm:
             ctx.count("two_arm_sampled_levels")
         try:
             if case.get("frontend"):
-                got = float(extract_feature(tree).get("volume", accuracy=acc)[0])
+                got = float(fe.get("volume", accuracy=acc)[0])
                 ctx.count("frontend_checked")
             else:
                 got = float(get_volume(tree, accuracy=acc))
@@ -319,10 +322,11 @@ def exec_sums(ctx, case):
         for acc in (1, 2):
             get_volume(t0, accuracy=acc)
         ctx.count("same_skeleton_other_radii")
+    fe = extract_feature(tree) if case.get("frontend") else None
     for acc, want, cnt in ((1, v1, "level1_checked"), (2, v2, "level2_checked")):
         try:
             if case.get("frontend"):
-                got = float(extract_feature(tree).get("volume", accuracy=acc)[0])
+                got = float(fe.get("volume", accuracy=acc)[0])
                 ctx.count("frontend_checked")
             else:
                 got = float(get_volume(tree, accuracy=acc))
